@@ -73,7 +73,7 @@ func (s *Session[K]) noise(r *rng.R) {
 		s.T.Minimum()
 		s.T.Maximum()
 		if st, ok := s.pickStored(r); ok {
-			if s.K.HasPrefix && s.K.PrefixArgOK(st) {
+			if s.K.HasPrefix {
 				for range s.T.Prefix(s.fresh(st)) {
 					break
 				}
@@ -219,13 +219,13 @@ func (s *Session[K]) CheckSeqProtocol(r *rng.R) {
 		ps := []K{z}
 		if st, ok := s.pickStored(r); ok {
 			qs := s.K.PrefixQueries(r, st)
-			ps = append(ps, rng.Pick(r, qs), rng.Pick(r, qs))
+			// the shortest cuts (most matches, most rejected look-alikes) and two random ones;
+			// only consistency between passes is judged here, so arguments outside C04's
+			// content scope are fine
+			ps = append(ps, qs[min(1, len(qs)-1)], rng.Pick(r, qs), rng.Pick(r, qs))
 		}
 		for _, p := range ps {
 			p := p
-			if !s.K.PrefixArgOK(p) {
-				continue
-			}
 			s.seqProtocol(fmt.Sprintf("Prefix(%s)", s.K.Show(p)), func() iter.Seq2[K, uint64] { return s.T.Prefix(s.fresh(p)) }, r)
 		}
 	}
